@@ -156,6 +156,11 @@ class Model:
                 if d.get('offmod') and part._vseq % 2 == 0:
                     h.offset_next_cycle_time(d['offmod'] * TICK)
                 tr.occ('recv', d['id'], part, h)
+                if k == 'sink' and d.get('vadd'):
+                    # a receive callback of the sink that changes the part afterwards: the sink is credited
+                    # with the value at receipt
+                    for lf in leaves(part):
+                        lf.add_value('sinkmark', d['vadd'])
             o.add_receive_part_callback(on_receive)
         if isinstance(o, PartProcessor):
             def on_finish(m, part, d=d):
